@@ -7,7 +7,7 @@ ALL_SHAPES = ["One", "Two", "Flat4", "Heap", "DrH", "DrN", "DrP", "PlC", "NFirst
 NOCLONE = set()   # (the Drop shapes had no Clone API before /repo 72750cf)
 DROP_SHAPES = ["DrH", "DrN", "DrNN", "DrP"]
 TWINS = [("NFirst", "NFirstF"), ("NMid", "NMidF"), ("NLast", "NLastF"), ("Deep", "DeepF")]
-NLEAVES = {"DrP": 2, "PlC": 2, "One": 1, "Two": 2, "Flat4": 4, "Heap": 2, "DrH": 2, "DrN": 3, "DrNN": 3, "NFirst": 3, "NFirstF": 3, "Hyg": 5, "N2": 4, "ZZ": 2,
+NLEAVES = {"DrP": 2, "PlC": 2, "One": 1, "Two": 2, "Flat4": 4, "Heap": 2, "DrH": 2, "DrN": 3, "DrNN": 3, "NFirst": 3, "NFirstF": 3, "Hyg": 6, "N2": 4, "ZZ": 2,
            "NMid": 4, "NMidF": 4, "NLast": 3, "NLastF": 3, "Deep": 5, "DeepF": 5}
 
 
@@ -467,6 +467,10 @@ def iter_scenarios(shapes, L):
                 src = ITERMUT_SOURCES[k % len(ITERMUT_SOURCES)]
                 st = "".join(c + "L" for c in steps)
                 out.append(Scenario(sh, [setup(n), f"itermut r0 {src} {st}", "len r0"], "itermut"))
+            # internal iteration that consumes the iterator (fold, rfold, rev().for_each) after a few plain steps
+            for j, (pre, term) in enumerate(itertools.product(("", "F", "B", "FB", "BF", "N"), "XYV")):
+                out.append(Scenario(sh, [setup(n), f"iter r0 {ITER_SOURCES[j % len(ITER_SOURCES)]} {pre}{term}", f"iter r0 {ITER_SOURCES[(j + 3) % len(ITER_SOURCES)]} {pre}L{term}"], "iter-fold"))
+                out.append(Scenario(sh, [setup(n), f"itermut r0 {ITERMUT_SOURCES[j % len(ITERMUT_SOURCES)]} {pre}{term}", "len r0"], "itermut-fold"))
             # adaptor-style consumption (nth / nth_back in range and overshooting, last, count) mixed with plain steps,
             # the iterator used again afterwards; len and size_hint after every step
             adapt = []
